@@ -80,5 +80,12 @@ void QXmpp::Private::TaskPrivate::setContinuation(std::function<void(TaskPrivate
 
 void QXmpp::Private::TaskPrivate::invokeContinuation(void *result)
 {
-    d->continuation(*this, result);
+    // The continuation may drop the last handle of this task (e.g. the owner of the promise deletes
+    // itself from inside its own continuation). Keep the shared data alive and run a local copy of
+    // the continuation, so that neither the closure being executed nor the TaskPrivate it is given
+    // is destroyed while it runs.
+    TaskPrivate self(*this);
+    auto continuation = std::move(self.d->continuation);
+    self.d->continuation = nullptr;
+    continuation(self, result);
 }
